@@ -17,10 +17,22 @@ TraceInit ==
 
 Evs == Traces[tid].events
 Pr == Traces[tid].pr
+\* focus: the property ids (and "EXC") whose clauses are decided by this run; clauses of
+\* other properties are decided by those properties' own checks and do not stop the trace
+Focus == ToSet(Traces[tid].focus)
+InFocus(v) == v # "ok" /\ SubSeq(v, 1, 3) \in Focus
 
 Accept(v, upd) ==
-  \/ v = "ok" /\ verdict' = "ok" /\ upd
-  \/ v # "ok" /\ verdict' = v /\ UNCHANGED obsvars
+  \/ ~InFocus(v) /\ verdict' = "ok" /\ upd
+  \/ InFocus(v) /\ verdict' = v /\ UNCHANGED obsvars
+
+\* C17: observable events of this run and of the reference run (same schedule, small
+\* sequence-number origins) must coincide
+IsObs(ev) == ev.k \in {"msg", "state", "openev", "closeev", "dcevent", "id", "send_failed", "create_failed", "exc", "quiesce"}
+OriginVerdict ==
+  IF "ref" \in DOMAIN Traces[tid] /\ "C17" \in Focus
+       /\ SelectSeq(Evs, IsObs) # SelectSeq(Traces[tid].ref, IsObs)
+    THEN "C17.origin_divergence" ELSE "ok"
 
 Consume ==
   /\ ~done /\ verdict = "ok" /\ l <= Len(Evs)
@@ -38,19 +50,22 @@ Consume ==
        [] ev.k = "buf"    -> Accept(BufVerdict(ev.c, ev.e, ev.b0, ev.b1, ev.sent, ev.lows, ev.thr, ev.q),
                                     UNCHANGED obsvars)
        [] ev.k = "lowev"  -> Accept(LowEvVerdict(ev.ok), UNCHANGED obsvars)
-       [] ev.k = "close"  -> Accept("ok", DoCloseReq(ev.c))
+       [] ev.k = "close"  -> Accept("ok", DoCloseReq(ev.c, ev.est, ev.hasid))
+       [] ev.k = "drop"   -> Accept("ok", DoDrop(ev.reconfig))
        [] ev.k = "heal"   -> Accept("ok", DoHeal)
        [] ev.k = "send_failed" -> Accept(SendFailedVerdict(ev.st), UNCHANGED obsvars)
        [] ev.k = "create_failed" -> Accept(CreateFailedVerdict(ev.e, ev.sid), UNCHANGED obsvars)
-       [] ev.k = "exc"    -> Accept("EXC." \o ev.where \o "." \o ev.name, UNCHANGED obsvars)
+       [] ev.k = "exc"    -> Accept("EXC." \o ev.where \o "." \o ev.name \o "." \o ev.fn, UNCHANGED obsvars)
        [] ev.k = "quiesce" -> Accept(QuiesceVerdict(ev.A, ev.B, ToSet(ev.chans), Pr), UNCHANGED obsvars)
        [] OTHER -> Accept("ok", UNCHANGED obsvars)
 
 Finish ==
   /\ ~done /\ (verdict # "ok" \/ l > Len(Evs))
   /\ done' = TRUE
-  /\ PrintT(<<"RESULT", Traces[tid].id, verdict, l - 1>>)
-  /\ UNCHANGED <<obsvars, tid, l, verdict>>
+  /\ LET v == IF verdict = "ok" THEN OriginVerdict ELSE verdict IN
+       /\ verdict' = v
+       /\ PrintT(<<"RESULT", Traces[tid].id, v, l - 1>>)
+  /\ UNCHANGED <<obsvars, tid, l>>
 
 TraceNext == Consume \/ Finish
 TraceSpec == TraceInit /\ [][TraceNext]_tvars
